@@ -25,6 +25,8 @@ structure VStep (s s' : State) (n : Nat) (v : Val) : Prop where
   /-- a change detector that is not stale afterwards was not stale, and if `n` is its input the value is unchanged -/
   lcStale : ∀ lc f c, (s.nodeD lc).kind = .map f [c] → fnPerKey ≤ f → s'.isStale lc = false →
     s.isStale lc = false ∧ (c = n → (s'.nodeD n).value = (s.nodeD n).value)
+  /-- expert nodes whose virtual stamp is `-1` keep it (`n` is not an expert node) -/
+  stamp : ∀ m e, (s.nodeD m).kind = .expert e → ((V s).nodeD m).recomputedAt = -1 → ((V s').nodeD m).recomputedAt = -1
 
 theorem lt_of_kind_map {s : State} {m f : Nat} {args : List Nat} (h : (s.nodeD m).kind = .map f args) :
     m < s.nodes.size := by
@@ -85,7 +87,9 @@ theorem NoRem.of_vstep {s s' : State} {n : Nat} {v : Val} (N : NoRem s) (S : VSt
 
 /-! ## `PKOK` -/
 
-theorem SF.kf {s s' : State} (f : SF s s') : KF s s' where
+theorem SF.kf {s s' : State} (f : SF s s')
+    (hst : ∀ m e, (s.nodeD m).kind = .expert e → ((V s).nodeD m).recomputedAt = -1 → ((V s').nodeD m).recomputedAt = -1) :
+    KF s s' where
   grow := Nat.le_of_eq f.size.symm
   kind m _ := f.kind m
   xrec e er he := by
@@ -99,13 +103,14 @@ theorem SF.kf {s s' : State} (f : SF s s') : KF s s' where
       exact ⟨er', rfl, this⟩
   top k m h := by rw [f.top]; exact h
   kids m _ := kidsX_frame f.xf m
+  stamp m e _ hk hs := hst m e hk hs
 
 theorem SF.stObservers {s s' : State} (f : SF s s') : s'.observers = s.observers := by
   have := f.df.keyD; simp only [KeyD, stateKeyD, Prod.mk.injEq] at this; exact this.1
 
 theorem OpOK.of_vstep {env : Env} {s s' : State} {n : Nat} {v : Val} {op : Nat} {pr : PerKeyRec}
     (O : OpOK env s op pr) (S : VStep s s' n v) : OpOK env s' op pr := by
-  refine O.of_frame S.sf.kf (fun c x h1 h2 => ?_) (fun x _ hx => by rw [S.obsN]; exact hx)
+  refine O.of_frame (S.sf.kf S.stamp) (fun c x h1 h2 => ?_) (fun x _ hx => by rw [S.obsN]; exact hx)
     (fun k x hk => Or.inl (by rw [← S.sf.top]; exact hk)) (fun hst => ?_)
   · rw [S.sf.size] at h2; omega
   · obtain ⟨x, e, er, hN, -⟩ := O.nodes
